@@ -139,6 +139,7 @@ type Plan struct {
 	Noise   []CandSpec `json:"noise,omitempty"` // ribsim: paths added and removed again (C02)
 	BMPPeers []BMPPeer `json:"bmp_peers,omitempty"` // bmpsim: monitored sessions of the scripted router
 	ISIS    *ISISCfg  `json:"isis,omitempty"`      // isissim: interfaces and scripted neighbours
+	Cfgs    []CfgSpec `json:"cfgs,omitempty"`      // cfgsim: configurations loaded one after the other
 }
 
 func (p *Plan) JSON() []byte {
